@@ -309,6 +309,9 @@ func RunWorker[P any](t *testing.T, e Engine[P]) {
 	known := LoadKnown(os.Getenv("VERIF_KNOWN"))
 	replayDir := os.Getenv("VERIF_REPLAY_DIR")
 	total := e.Runs(prop, tier)
+	if v := envInt("VERIF_RUNS", 0); v > 0 {
+		total = v // the driver's --runs override
+	}
 	from := envInt("VERIF_FROM", 0)
 	to := envInt("VERIF_TO", total)
 	if to > total {
